@@ -14,6 +14,7 @@ import (
 	"hash/fnv"
 	"os"
 	"path/filepath"
+	"runtime"
 	"runtime/debug"
 	"sort"
 	"strconv"
@@ -370,11 +371,37 @@ func (p *Prop[C]) safeCheck(c C, raw []byte) (err error) {
 	}
 	timer := time.NewTimer(timeout)
 	defer timer.Stop()
-	select {
-	case <-done:
-		return err
-	case <-timer.C:
-		p.writeReplay("timeout", fmt.Sprintf("case did not finish within %v", timeout), raw)
+	// A case that does not terminate may also allocate without bound and take
+	// the machine down long before the watchdog expires: a heap beyond the
+	// limit (default 4 GiB, VERIF_MEM_LIMIT_MB) ends the case like an expiry.
+	limitMB := uint64(4096)
+	if m := os.Getenv("VERIF_MEM_LIMIT_MB"); m != "" {
+		if k, e := strconv.ParseUint(m, 10, 64); e == nil && k > 0 {
+			limitMB = k
+		}
+	}
+	mem := time.NewTicker(250 * time.Millisecond)
+	defer mem.Stop()
+	why := ""
+wait:
+	for {
+		select {
+		case <-done:
+			return err
+		case <-timer.C:
+			why = fmt.Sprintf("case did not finish within %v", timeout)
+			break wait
+		case <-mem.C:
+			var ms runtime.MemStats
+			runtime.ReadMemStats(&ms)
+			if ms.HeapAlloc>>20 > limitMB {
+				why = fmt.Sprintf("case did not finish and holds %d MiB of heap (limit %d MiB)", ms.HeapAlloc>>20, limitMB)
+				break wait
+			}
+		}
+	}
+	{
+		p.writeReplay("timeout", why, raw)
 		if cur != nil {
 			cur.flush()
 		}
@@ -427,18 +454,8 @@ func (p *Prop[C]) main(t *testing.T) {
 		if jerr != nil {
 			panic("case not serialisable: " + jerr.Error())
 		}
-		class, nt := "case", true
-		if p.Class != nil {
-			func() {
-				defer func() {
-					if r := recover(); r != nil {
-						class, nt = "class-panicked", true
-					}
-				}()
-				class, nt = p.Class(c)
-			}()
-		}
-		s.record(class, nt, raw)
+		// The oracle runs first, under the watchdog: the class function often
+		// runs the code under test too, and must not be the one to meet a hang.
 		if err := p.safeCheck(c, raw); err != nil {
 			s.mu.Lock()
 			s.failed = true
@@ -451,6 +468,18 @@ func (p *Prop[C]) main(t *testing.T) {
 			fmt.Printf("VERIF-FAIL %s %s\n", p.Name, path)
 			fatal("%s: %v\ncase: %s", p.Name, err, clip(string(raw), 2000))
 		}
+		class, nt := "case", true
+		if p.Class != nil {
+			func() {
+				defer func() {
+					if r := recover(); r != nil {
+						class, nt = "class-panicked", true
+					}
+				}()
+				class, nt = p.Class(c)
+			}()
+		}
+		s.record(class, nt, raw)
 	}
 
 	if p.Enum != nil {
